@@ -22,7 +22,9 @@ let () =
         let nz () = z_of_int (ni ()) in
         let nflist n = List.init n (fun _ -> nf ()) in
         (match w.(0) with
-         | "RUN" ->
+         | "RUN" | "RUNF" ->
+           (* RUNF f <as RUN>: the run protocol with timeStepFactor f (coq/C06/RestraintTSF.v); prints the state after EVERY event *)
+           let tsf = if w.(0) = "RUNF" then ni () else 1 in
            let kind = (match next () with "harmonic" -> Harmonic | "walls" -> Walls | _ -> Linear) in
            let nv = ni () in
            let vars = List.init nv (fun _ ->
@@ -47,6 +49,15 @@ let () =
            let evs = List.init nev (fun _ ->
                let t = next () in let xs = nflist nv in
                match t with "S" -> EStep xs | "B" -> EBoundary xs | _ -> ERestart xs) in
+           if w.(0) = "RUNF" then begin
+             let m = ref (init_m fops c) in
+             let outs = List.map (fun e ->
+                 m := mstep_tsf fops (z_of_int tsf) c !m e;
+                 let s = (!m).m_st in
+                 Printf.sprintf "it=%d C=%s K=%s ST=%d FS=%d W=%s FE=%s"
+                   (int_of_z (!m).m_it) (hexl s.s_centers) (hex s.s_k) (int_of_z s.s_stage) (int_of_z s.s_first) (hex s.s_W) (hex s.s_FE)) evs in
+             Printf.printf "%s\n" (String.concat " ; " outs)
+           end else
            let m = run fops c evs in
            let outs = List.map (fun ((it, s), o) ->
                Printf.sprintf "it=%d E=%s F=%s C=%s K=%s ST=%d FS=%d W=%s FE=%s KI=%s L=%s"
